@@ -310,6 +310,13 @@ def run_shard(shard, rec):
                 rec.sample(case)
 
 
+def finalize(merged, tier, inconclusive):
+    seen = merged.hist.get("fault", {})
+    for f in CODES:
+        if seen.get(f, 0) < 5:
+            inconclusive.append(f"fault kind '{f}' was seeded {seen.get(f, 0)} times (< 5)")
+
+
 def replay(case, rec):
     if case.get("kind") == "seeded":
         check_seeded(case, rec)
